@@ -265,8 +265,17 @@ where
             .saturating_sub(*control_data_len as usize)
             .saturating_sub(tag_len);
 
-        // TODO figure out encoding size for the capacity
-        let remaining_payload_capacity = remaining_payload_capacity.saturating_sub(1);
+        // reserve space for the payload length itself: a varint whose size depends on the largest
+        // payload that could fit (one of its bytes is covered by the application header length
+        // encoding reserved above, which is only written for a non-empty header)
+        let payload_len_size = VarInt::try_from(buffered_len.min(remaining_payload_capacity))
+            .map_or(8, |len| len.encoding_size());
+        let reserved = if header.buffer_is_empty() {
+            payload_len_size.saturating_sub(1)
+        } else {
+            payload_len_size
+        };
+        let remaining_payload_capacity = remaining_payload_capacity.saturating_sub(reserved.max(1));
 
         let payload_len = buffered_len.min(remaining_payload_capacity);
 
